@@ -16,14 +16,13 @@
    * KnownMember: member alignments are powers of two (≤ 2^30) — true of every ffi type in
      Gen.ffiTagTable (C08_platform) and preserved by struct/union/array (C08_closed_*).
    * no C `int` overflow: padded size + alignment ≤ 2^31 (giroffsets.c computes in `int`).
-   * C08_stored: field offsets < 65535 (FieldBlob.struct_offset is 16 bit, 0xFFFF = unknown).
-     Without it the statement is FALSE on the unchanged code: C08_stored_counterexample
-     (replayed on the real g-ir-compiler: corpus/C08/finding_witnesses.json, KOff16: records,
-     a boxed type and classes); C08_stored_wraps says what is stored instead.  Classes,
-     interfaces and boxed types use the record loop (C08_object_fields, C08_dispatch_shape), so
-     every theorem about `structLayout` / `storeLayout` is about their fields as well.
-   * C08_enum_partial: not (a negative member together with a member > G_MAXINT).  Without it
-     the statement is FALSE on the unchanged code: C08_enum_counterexample (KEnum33).
+   * C08_stored: size < 2^32 and alignment < 64 (the widths of StructBlob.size / .alignment; sizes are
+     C ints and alignments at most 8 here).  Field offsets need NO hypothesis since fix 260587f:
+     C08_stored_offset — exact below 65535, the unknown marker otherwise.  Classes, interfaces and
+     boxed types use the record loop (C08_object_fields, C08_dispatch_shape), so every theorem
+     about `structLayout` / `storeLayout` is about their fields as well.
+   * C08_enum / C08_enum_range are full since fix 1fcf299 (negative member with a member above
+     G_MAXINT: gint64); former witnesses stay in corpus/C08/finding_witnesses.json as regressions.
    * enumeration members outside [-2^31, 2^32) are outside the typelib format (32-bit ValueBlob).
   NOT provable, validated on every run against gcc: "Spec.cStructLayout / cUnionLayout is what
   the C compiler does on this platform"; leaf sizes are the measured table Gen.ffiTagTable.
@@ -55,7 +54,7 @@ theorem C08_loop_shapes :
 /-- compute_enum_storage_type: the min/max fold and the decision chain -/
 theorem C08_enum_shape :
     Gen.enumFoldShape = "for (l = enum_node->values; l; l = l->next) { GIrNodeValue *value = l->data; if (value->value > max_value) max_value = value->value; if (value->value < min_value) min_value = value->value; }"
-    ∧ Gen.enumDecisionShape = "if (min_value < 0) { signed_type = TRUE; if (min_value > -128 && max_value <= 127) width = sizeof(Enum7); else if (min_value >= G_MINSHORT && max_value <= G_MAXSHORT) width = sizeof(Enum8); else width = sizeof(Enum9); } else { if (max_value <= 127) { width = sizeof (Enum1); signed_type = (gint64)(Enum1)(-1) < 0; } else if (max_value <= 255) { width = sizeof (Enum2); signed_type = (gint64)(Enum2)(-1) < 0; } else if (max_value <= G_MAXSHORT) { width = sizeof (Enum3); signed_type = (gint64)(Enum3)(-1) < 0; } else if (max_value <= G_MAXUSHORT) { width = sizeof (Enum4); signed_type = (gint64)(Enum4)(-1) < 0; } else if (max_value <= G_MAXINT) { width = sizeof (Enum5); signed_type = (gint64)(Enum5)(-1) < 0; } else { width = sizeof (Enum6); signed_type = (gint64)(Enum6)(-1) < 0; } } if (width == 1) enum_node->storage_type = signed_type ? GI_TYPE_TAG_INT8 : GI_TYPE_TAG_UINT8; else if (width == 2) enum_node->storage_type = signed_type ? GI_TYPE_TAG_INT16 : GI_TYPE_TAG_UINT16; else if (width == 4) enum_node->storage_type = signed_type ? GI_TYPE_TAG_INT32 : GI_TYPE_TAG_UINT32; else if (width == 8) enum_node->storage_type = signed_type ? GI_TYPE_TAG_INT64 : GI_TYPE_TAG_UINT64; else g_error (\"...\", width);" := by
+    ∧ Gen.enumDecisionShape = "if (min_value < 0) { signed_type = TRUE; if (min_value > -128 && max_value <= 127) width = sizeof(Enum7); else if (min_value >= G_MINSHORT && max_value <= G_MAXSHORT) width = sizeof(Enum8); else if (max_value <= G_MAXINT) width = sizeof(Enum9); else width = sizeof(gint64); } else { if (max_value <= 127) { width = sizeof (Enum1); signed_type = (gint64)(Enum1)(-1) < 0; } else if (max_value <= 255) { width = sizeof (Enum2); signed_type = (gint64)(Enum2)(-1) < 0; } else if (max_value <= G_MAXSHORT) { width = sizeof (Enum3); signed_type = (gint64)(Enum3)(-1) < 0; } else if (max_value <= G_MAXUSHORT) { width = sizeof (Enum4); signed_type = (gint64)(Enum4)(-1) < 0; } else if (max_value <= G_MAXINT) { width = sizeof (Enum5); signed_type = (gint64)(Enum5)(-1) < 0; } else { width = sizeof (Enum6); signed_type = (gint64)(Enum6)(-1) < 0; } } if (width == 1) enum_node->storage_type = signed_type ? GI_TYPE_TAG_INT8 : GI_TYPE_TAG_UINT8; else if (width == 2) enum_node->storage_type = signed_type ? GI_TYPE_TAG_INT16 : GI_TYPE_TAG_UINT16; else if (width == 4) enum_node->storage_type = signed_type ? GI_TYPE_TAG_INT32 : GI_TYPE_TAG_UINT32; else if (width == 8) enum_node->storage_type = signed_type ? GI_TYPE_TAG_INT64 : GI_TYPE_TAG_UINT64; else g_error (\"...\", width);" := by
   exact ⟨rfl, rfl⟩
 
 /-- get_enum_size_alignment, get_field_size_alignment, get_type_size_alignment,
@@ -69,26 +68,26 @@ theorem C08_size_helper_shapes :
 
 /-- _g_ir_node_compute_offsets: boxed, record, class and interface entries all go through
     compute_struct_field_offsets, unions through compute_union_field_offsets; girnode.c copies a
-    non-negative `field->offset` into the 16-bit `FieldBlob.struct_offset` unchanged and writes 0xFFFF
-    for a negative one (model: `computeNode`, `blobOffset`). -/
+    `field->offset` in [0, 0xFFFF) into the 16-bit `FieldBlob.struct_offset` and writes the unknown
+    marker 0xFFFF for every other one (model: `computeNode`, `blobOffset`). -/
 theorem C08_dispatch_shape :
     Gen.computeDispatchShape = ["BOXED:compute_struct_field_offsets", "STRUCT:compute_struct_field_offsets", "OBJECT,INTERFACE:compute_struct_field_offsets", "UNION:compute_union_field_offsets", "ENUM,FLAGS:compute_enum_storage_type"]
-    ∧ Gen.fieldOffsetStoreShape = "if (field->offset >= 0) blob->struct_offset = field->offset; else blob->struct_offset = 0xFFFF;"
+    ∧ Gen.fieldOffsetStoreShape = "if (field->offset >= 0 && field->offset < 0xFFFF) blob->struct_offset = field->offset; else blob->struct_offset = 0xFFFF;"
     ∧ Gen.fieldOffsetDeclShape = "guint16 struct_offset;" := by
   exact ⟨rfl, rfl, rfl⟩
 
 /-- The platform facts the other theorems lean on, decided over the measured tables: every value
     type returned by `gi_type_tag_get_ffi_type` has size = alignment = a power of two ≤ 8 (so every
     leaf is a `KnownMember`), pointers are 8/8, all nine probe enums are 4 bytes, the unsigned-capable
-    ones unsigned and the negative ones signed. -/
+    ones unsigned and the negative ones signed; gint64 is 8 bytes. -/
 theorem C08_platform :
     (∀ e ∈ Gen.ffiTagTable, e.2.2.1 = 0 → e.2.2.2.1 = e.2.2.2.2 ∧ e.2.2.2.2 ∈ [1, 2, 4, 8])
     ∧ Gen.ffiPointerSize = 8 ∧ Gen.ffiPointerAlign = 8
     ∧ Gen.ffiUIntTable = [(1, 1, 1), (2, 2, 2), (4, 4, 4), (8, 8, 8)]
     ∧ Gen.probeEnums.map (·.2.1) = [4, 4, 4, 4, 4, 4, 4, 4, 4]
     ∧ Gen.probeEnums.map (·.2.2) = [false, false, false, false, false, false, true, true, true]
-    ∧ Gen.sizeofInt = 4 := by
-  refine ⟨by decide, by decide, by decide, by decide, by decide, by decide, by decide⟩
+    ∧ Gen.sizeofInt = 4 ∧ Gen.sizeofGint64 = 8 := by
+  refine ⟨by decide, by decide, by decide, by decide, by decide, by decide, by decide, by decide⟩
 
 /-! ### GI_ALIGN -/
 
@@ -308,60 +307,51 @@ example : (computeNode [⟨"O".toList, .object, [.field "p".toList false (.basic
 
 /-! ### what reaches the typelib -/
 
-/-- Inside the blob field widths nothing is lost and no offset collides with the unknown marker. -/
-theorem C08_stored (l : Layout) (hs : 0 ≤ l.size ∧ l.size < 2 ^ 32) (ha : 0 ≤ l.align ∧ l.align < 64)
-    (ho : ∀ o ∈ l.offsets, 0 ≤ o ∧ o < 65535) :
+/-- What reaches FieldBlob.struct_offset, for EVERY offset the layout computation can produce: an
+    offset in [0, 65535) is stored exactly (and is not the unknown marker); every other one — negative
+    (= unknown size) or too large for the 16-bit member — is stored as the unknown marker 0xFFFF.
+    Never a wrong positive value. -/
+theorem C08_stored_offset (off : Int) :
+    (0 ≤ off ∧ off < 65535 → blobOffset off = off.toNat ∧ blobOffset off ≠ 65535) ∧
+    (off < 0 ∨ 65535 ≤ off → blobOffset off = 65535) ∧
+    (blobOffset off = off.toNat ∨ blobOffset off = 65535) := by
+  refine ⟨fun h => blobOffset_small off h.1 h.2, blobOffset_unknown off, ?_⟩
+  by_cases h : 0 ≤ off ∧ off < 65535
+  · exact Or.inl (blobOffset_small off h.1 h.2).1
+  · exact Or.inr (blobOffset_unknown off (by omega))
+
+/-- A whole layout: size and alignment are stored exactly (inside the blob field widths: 32 and 6
+    bits), every field offset exactly or as "unknown" — the latter precisely when it does not fit. -/
+theorem C08_stored (l : Layout) (hs : 0 ≤ l.size ∧ l.size < 2 ^ 32) (ha : 0 ≤ l.align ∧ l.align < 64) :
     (storeLayout l).size = l.size.toNat ∧ (storeLayout l).align = l.align.toNat ∧
-    (storeLayout l).offsets = l.offsets.map Int.toNat ∧ (∀ o ∈ (storeLayout l).offsets, o ≠ 65535) := by
+    (storeLayout l).offsets = l.offsets.map blobOffset ∧
+    (∀ o ∈ l.offsets, (0 ≤ o ∧ o < 65535 ∧ blobOffset o = o.toNat) ∨ ((o < 0 ∨ 65535 ≤ o) ∧ blobOffset o = 65535)) := by
   have h32 : (2:Int) ^ 32 = 4294967296 := by decide
   rw [h32] at hs
-  refine ⟨?_, ?_, ?_, ?_⟩
+  refine ⟨?_, ?_, rfl, ?_⟩
   · simp only [storeLayout, blobSize]; rw [Int.emod_eq_of_lt hs.1 hs.2]
   · simp only [storeLayout, blobAlign]; rw [Int.emod_eq_of_lt ha.1 ha.2]
-  · simp only [storeLayout]
-    apply List.map_congr_left
-    intro o hm
-    exact (blobOffset_small o (ho o hm).1 (ho o hm).2).1
-  · intro o hm
-    simp only [storeLayout, List.mem_map] at hm
-    obtain ⟨x, hx, rfl⟩ := hm
-    exact (blobOffset_small x (ho x hx).1 (ho x hx).2).2
+  · intro o _
+    by_cases h : 0 ≤ o ∧ o < 65535
+    · exact Or.inl ⟨h.1, h.2, (blobOffset_small o h.1 h.2).1⟩
+    · have h' : o < 0 ∨ 65535 ≤ o := by omega
+      exact Or.inr ⟨h', blobOffset_unknown o h'⟩
 
 example : storeLayout ⟨24, 8, [0, 8, 16]⟩ = ⟨24, 8, [0, 8, 16]⟩ := by decide
+example : (0 : Int) ≤ 24 ∧ (24 : Int) < 2 ^ 32 ∧ (0 : Int) ≤ 8 ∧ (8 : Int) < 64 := by decide
+/-- `struct { gint8 a; guint8 buf[70000]; gint32 x; }`: x is at 70004, which does not fit: unknown
+    (before fix 260587f the typelib said 4468); 65534 is the last offset that is stored -/
+example : storeLayout ⟨70008, 4, [0, 1, 70004]⟩ = ⟨70008, 4, [0, 1, 65535]⟩ := by decide
+example : blobOffset 65534 = 65534 ∧ blobOffset 65535 = 65535 ∧ blobOffset 65536 = 65535 ∧
+    blobOffset 131072 = 65535 ∧ blobOffset (-1) = 65535 := by decide
 
-/-- FULL statement (false on the unchanged code): every non-negative field offset is either stored
-    exactly or stored as "unknown". -/
-def C08_stored_full : Prop :=
-  ∀ off : Int, 0 ≤ off → off < 2 ^ 31 → blobOffset off = off.toNat ∨ blobOffset off = 65535
-
-/-- witness: `struct { gint8 a; guint8 buf[70000]; gint32 x; }` — x is at 70004, the typelib says 4468 -/
-theorem C08_stored_counterexample : ¬ C08_stored_full := by
-  intro h
-  have := h 70004 (by decide) (by decide)
-  revert this
-  decide
-
-/-- What exactly happens beyond the 16 bits (the harness attributes a disagreement with gcc to this
-    known defect only when the typelib holds precisely these values): a non-negative offset is stored
-    modulo 2^16; from 65536 on that is a smaller, wrong, positive offset, and 65535 itself is
-    indistinguishable from the "unknown" marker. -/
-theorem C08_stored_wraps (off : Int) (h : 0 ≤ off) :
-    (blobOffset off : Int) = off % 65536 ∧ (65536 ≤ off → blobOffset off < off.toNat) ∧
-    (off = 65535 → blobOffset off = blobOffset (-1)) := by
-  have hge : off ≥ 0 := h
-  refine ⟨?_, ?_, ?_⟩
-  · simp only [blobOffset, hge, ↓reduceIte]; omega
-  · intro h2; simp only [blobOffset, hge, ↓reduceIte]; omega
-  · intro h2; subst h2; decide
-
-/-- the same witness as a class: `class { gint8 a; guint8 buf[70000]; gint32 x; }` — the model of
-    giroffsets.c puts x at 70004 (as gcc does), the FieldBlob says 4468 (ObjectBlob has no size) -/
+/-- the same as a class: `class { gint8 a; guint8 buf[70000]; gint32 x; }` — the model of
+    giroffsets.c puts x at 70004 (as gcc does), the FieldBlob says "unknown" (ObjectBlob has no size) -/
 example : (computeNode [] ⟨"O".toList, .object,
       [.field "a".toList false (.basic Gen.tagInt8 false),
        .field "buf".toList false (.array false true 70000 (.basic Gen.tagUInt8 false)),
        .field "x".toList false (.basic Gen.tagInt32 false)], []⟩).layout = ⟨70008, 4, [0, 1, 70004]⟩ ∧
-    (storeLayout ⟨70008, 4, [0, 1, 70004]⟩).offsets = [0, 1, 4468] := by decide
-example : (0 : Int) ≤ 70004 ∧ (65536 : Int) ≤ 70004 := by decide
+    (storeLayout ⟨70008, 4, [0, 1, 70004]⟩).offsets = [0, 1, 65535] := by decide
 
 /-! ### enumerations -/
 
@@ -372,54 +362,66 @@ theorem C08_enum_minmax (vs : List Int) :
   have := enumMinMax_spec vs 0 0 (by omega) (by omega)
   simpa [enumMinMax] using this
 
-/-- FULL statement (false on the unchanged code): for every value range that fits the 32-bit
-    ValueBlob the chosen storage type can represent min and max. -/
-def C08_enum_full : Prop :=
-  ∀ minV maxV : Int, minV ≤ 0 → 0 ≤ maxV → -2 ^ 31 ≤ minV → maxV < 2 ^ 32 →
-    ∃ tag lo hi, enumStorage minV maxV = some tag ∧ storageRange tag = some (lo, hi) ∧ lo ≤ minV ∧ maxV ≤ hi
-
-/-- With the platform's probe enums (all 4 bytes): the storage represents min and max, and it is
-    guint32 iff no member is negative, gint32 otherwise — provided a negative member does not
-    come with a member above G_MAXINT. -/
-theorem C08_enum_partial (minV maxV : Int) (hmin : minV ≤ 0) (hmax : 0 ≤ maxV) (hlo : -2 ^ 31 ≤ minV)
-    (hhi : maxV < 2 ^ 32) (hmixed : minV < 0 → maxV ≤ 2 ^ 31 - 1) :
+/-- With the platform's probe enums (all 4 bytes) and an 8-byte gint64: for EVERY value range that
+    fits the 32-bit ValueBlob the storage type represents min and max; it is guint32 iff no member is
+    negative, gint32 iff some member is negative and none exceeds G_MAXINT, gint64 iff a negative member
+    comes with a member above G_MAXINT (the C compiler's choice for each of the three cases is compared
+    on every run). -/
+theorem C08_enum_range (minV maxV : Int) (hmin : minV ≤ 0) (hmax : 0 ≤ maxV) (hlo : -2 ^ 31 ≤ minV)
+    (hhi : maxV < 2 ^ 32) :
     ∃ tag lo hi, enumStorage minV maxV = some tag ∧ storageRange tag = some (lo, hi) ∧ lo ≤ minV ∧ maxV ≤ hi ∧
-      (tag = Gen.tagUInt32 ↔ minV = 0) ∧ (tag = Gen.tagInt32 ↔ minV < 0) := by
+      (tag = Gen.tagUInt32 ↔ minV = 0) ∧ (tag = Gen.tagInt32 ↔ minV < 0 ∧ maxV ≤ 2 ^ 31 - 1) ∧
+      (tag = Gen.tagInt64 ↔ minV < 0 ∧ 2 ^ 31 - 1 < maxV) := by
   have h31 : (2:Int) ^ 31 = 2147483648 := by decide
   have h32 : (2:Int) ^ 32 = 4294967296 := by decide
-  rw [h31] at hlo hmixed
+  rw [h31] at hlo ⊢
   rw [h32] at hhi
   by_cases hneg : minV < 0
-  · refine ⟨Gen.tagInt32, -2147483648, 2147483647, enumStorage_neg minV maxV hneg, by decide, hlo, ?_, ?_, ?_⟩
-    · have := hmixed hneg; omega
-    · constructor
-      · intro h; exact absurd h (by decide)
-      · intro h; omega
-    · exact ⟨fun _ => hneg, fun _ => rfl⟩
+  · by_cases hbig : maxV ≤ 2147483647
+    · refine ⟨Gen.tagInt32, -2147483648, 2147483647, enumStorage_neg minV maxV hneg hbig, by decide, hlo, hbig, ?_, ?_, ?_⟩
+      · exact ⟨fun h => absurd h (by decide), fun h => by omega⟩
+      · exact ⟨fun _ => ⟨hneg, by omega⟩, fun _ => rfl⟩
+      · exact ⟨fun h => absurd h (by decide), fun h => by omega⟩
+    · refine ⟨Gen.tagInt64, -9223372036854775808, 9223372036854775807,
+        enumStorage_neg_big minV maxV hneg (by omega), by decide, by omega, by omega, ?_, ?_, ?_⟩
+      · exact ⟨fun h => absurd h (by decide), fun h => by omega⟩
+      · exact ⟨fun h => absurd h (by decide), fun h => by omega⟩
+      · exact ⟨fun _ => ⟨hneg, by omega⟩, fun _ => rfl⟩
   · have h0 : minV = 0 := by omega
     subst h0
-    refine ⟨Gen.tagUInt32, 0, 4294967295, enumStorage_nonneg maxV, by decide, by omega, by omega, ?_, ?_⟩
+    refine ⟨Gen.tagUInt32, 0, 4294967295, enumStorage_nonneg maxV, by decide, by omega, by omega, ?_, ?_, ?_⟩
     · exact ⟨fun _ => rfl, fun _ => rfl⟩
-    · constructor
-      · intro h; exact absurd h (by decide)
-      · intro h; omega
+    · exact ⟨fun h => absurd h (by decide), fun h => by omega⟩
+    · exact ⟨fun h => absurd h (by decide), fun h => by omega⟩
 
-/-- witness: `enum { A = -1, B = 0x80000000 }` gets gint32, which cannot hold B (gcc makes it 8 bytes) -/
-theorem C08_enum_counterexample : ¬ C08_enum_full := by
-  intro h
-  obtain ⟨tag, lo, hi, h1, h2, _, h4⟩ := h (-1) 2147483648 (by decide) (by decide) (by decide) (by decide)
-  rw [enumStorage_neg (-1) 2147483648 (by decide)] at h1
-  cases h1
-  have : storageRange Gen.tagInt32 = some (-2147483648, 2147483647) := by decide
-  rw [this] at h2
-  cases h2
+/-- FULL statement: for ALL member lists inside the ValueBlob range, compute_enum_storage_type picks
+    a storage type that can represent every member. -/
+theorem C08_enum (vs : List Int) (hv : ∀ v ∈ vs, -2 ^ 31 ≤ v ∧ v < 2 ^ 32) :
+    ∃ tag lo hi, enumStorageOfValues vs = some tag ∧ storageRange tag = some (lo, hi) ∧
+      ∀ v ∈ vs, lo ≤ v ∧ v ≤ hi := by
+  obtain ⟨hb, hmin, hmax, hminmem, hmaxmem⟩ := C08_enum_minmax vs
+  have hlo : -2 ^ 31 ≤ (enumMinMax vs).1 := by
+    rcases hminmem with h | h
+    · rw [h]; decide
+    · exact (hv _ h).1
+  have hhi : (enumMinMax vs).2 < 2 ^ 32 := by
+    rcases hmaxmem with h | h
+    · rw [h]; decide
+    · exact (hv _ h).2
+  obtain ⟨tag, lo, hi, h1, h2, h3, h4, _⟩ := C08_enum_range _ _ hmin hmax hlo hhi
+  refine ⟨tag, lo, hi, h1, h2, ?_⟩
+  intro v hm
+  have := hb v hm
   omega
 
+/-- the former witness: `enum { A = -1, B = 0x80000000 }` now gets gint64, as gcc makes it 8 bytes -/
+example : enumStorageOfValues [-1, 2147483648] = some Gen.tagInt64 := by decide
+example : enumStorageOfValues [-2147483648, 4294967295] = some Gen.tagInt64 := by decide
+example : enumStorageOfValues [-2147483648, 2147483647] = some Gen.tagInt32 := by decide
+example : ∀ v ∈ [(-1 : Int), 2147483648], -2 ^ 31 ≤ v ∧ v < 2 ^ 32 := by decide
 example : enumStorageOfValues [1, 2, 3] = some Gen.tagUInt32 := by decide
 example : enumStorageOfValues [-1, 5] = some Gen.tagInt32 := by decide
 example : enumStorageOfValues [4294967295] = some Gen.tagUInt32 := by decide
-example : enumStorageOfValues [-1, 2147483648] = some Gen.tagInt32 := by decide
-example : (-2 : Int) ≤ 0 ∧ (0 : Int) ≤ 70000 ∧ -2 ^ 31 ≤ (-2 : Int) ∧ (70000 : Int) < 2 ^ 32 ∧ ((-2 : Int) < 0 → (70000 : Int) ≤ 2 ^ 31 - 1) := by
-  decide
+example : (-2 : Int) ≤ 0 ∧ (0 : Int) ≤ 70000 ∧ -2 ^ 31 ≤ (-2 : Int) ∧ (70000 : Int) < 2 ^ 32 := by decide
 
 end GIVerif.Offsets
